@@ -113,9 +113,7 @@ func buildPrimary() (*primaryFixture, error) {
 		{"txmd-truncated", trunc, []ent{{k: "t", v: "after truncation"}}},
 		{"20kv", nil, big},
 		{"kvmd-all+txmd-both", both, []ent{{k: "z", v: "zz", md: all}, {k: "y", v: "yy"}}},
-		// NOTE: a tx with truncation metadata and NO entries commits on the primary (pkg/database CopySQLCatalog does that on a
-		// KV-only database) but its honest export is rejected by ReplicateTx ("invalid number of entries", TxHeader.ReadFrom
-		// requires NEntries >= 1). That is a replication defect (C07), not a totality one; the shape is left out here.
+		{"txmd-truncated-noentries", store.NewTxMetadata().WithTruncatedTxID(3), nil},
 		{"1kv-long-key", nil, []ent{{k: string(make([]byte, 128)), v: "v"}}},
 		{"last", nil, []ent{{k: "k1", v: "v2"}}},
 	}
@@ -406,7 +404,7 @@ func (s replicaState) String() string {
 func TestReplicateTxMutations(t *testing.T) {
 	fx := primary(t)
 	perCase := 24
-	vk.Check(t, 5000, 120000, func(rt *rapid.T, c *vk.Case) {
+	vk.Check(t, 5000, 60000, func(rt *rapid.T, c *vk.Case) {
 		k := rapid.IntRange(0, len(fx.txs)-2).Draw(rt, "k")
 		dir := vk.Dir()
 		defer removeAll(dir)
